@@ -90,6 +90,9 @@ def unit(model, sizes):
             ok = len(got) == len(want) and all(P.prove_eq(g, w)[0] for g, w in zip(got, want))
         recs.append(driver.rec(f"C12/{model}/{op}/closed-form-on-a-second-instance@{shape}", "discharged" if ok else "refuted", "field", 0,
                                fn=fn, shape=shape, mode="R", replay=None if ok else rp2))
+    from .predutil import history_records
+    if n <= 3:
+        recs += history_records("C12", W, model, sizes, ("predict_win", "predict_draw", "predict_rank"))
     return recs
 
 
